@@ -18,7 +18,9 @@ RULE = ("stream pubd (C11 mix): seeded request sequences against the real Reposi
 
 
 def check(ctx):
-    vlib.prove(ctx, ["KrillModel.Props.C11"])
+    # body of RrdpServer::find_deltas_truncate_age regenerated from the source; C11Src: generated definition = model function
+    vlib.translate(ctx, [("pure_fns:C11", "PureFns.lean")])
+    vlib.prove(ctx, ["KrillModel.Props.C11", "KrillModel.Props.C11Src"])
     found = False
     if vlib.build_harness(ctx, ["pubd"]):
         jobs, n, length = (8, 30, 12) if ctx.tier == "quick" else (12, 600, 16)
